@@ -68,3 +68,10 @@ CORPUS = [
 ]
 # the int(hex) case is a deliberate over-approximation probe; drop it from the corpus (documented in DESIGN §C14)
 CORPUS = [m for m in CORPUS if m.name != "int-of-text-in-update"]
+# round 3: state shared between response objects (one object's decode wipes / overwrites another's)
+CORPUS += [
+    M("properties-class-level", C, "        super().__init__(payload)\n\n        self._properties = {}\n\n        self._parse(payload)",
+      "        super().__init__(payload)\n\n        self._parse(payload)",
+      also=[(C, 'class PropertiesResponse(Response):\n    """Response to properties query."""\n', 'class PropertiesResponse(Response):\n    """Response to properties query."""\n\n    _properties: dict = {}\n')]),
+    M("n-properties-fresh-dict-call", C, "        self._properties = {}\n\n        self._parse(payload)", "        self._properties = dict()\n\n        self._parse(payload)", "S"),
+]
